@@ -120,7 +120,7 @@ Proof.
     exists (mkP (psrc st) l' tok (pcur st) false (pinfn st) (pinloop st)).
     split; [|split].
     + unfold advance. rewrite (nnn_step _ _ _ _ E) by (rewrite Htag; discriminate). reflexivity.
-    + repeat split; simpl; auto. destruct Hl' as [H1 H2]. exact H1. destruct Hl' as [H1 H2]. exact H2.
+    + split; [exact Hsrc|]. split; [exact Htag|]. split; [exact Hl'|reflexivity].
     + reflexivity.
   - simpl in Hwf. apply andb_true_iff in Hwf. destruct Hwf as [Hk' Hwf'].
     destruct (lex_next_at src (plex st) k' ts' Hlex Hk') as [tok [l' [E [Hm Hl']]]].
@@ -1163,31 +1163,47 @@ Proof.
   unfold pbind. rewrite E. reflexivity.
 Qed.
 
-(* every printing of a well-formed expression -- with any set of forced parentheses --
-   parses, with the fuel the model grants, to a tree whose position-free form is the
-   expression (compound assignments desugared, as the parser does) *)
-Theorem parse_print : forall force e, wf_sexpr e = true ->
-  exists e' st', parse_expression_src (text_of (print force 1 e)) = POk e' st' /\
-                 strip (text_of (print force 1 e)) e' = Some (desugar e).
+Lemma lay_len : forall trail its first, gaps_ok first its = true -> length its <= length (lay its trail).
 Proof.
-  intros force e Hwf.
-  pose proof (print_wf force e Hwf 1) as Hts.
-  destruct (print_hd force e Hwf 1) as [k [tl [Ek _]]].
-  pose proof (text_len _ Hts) as Hlen.
-  assert (Hn : length (print force 1 e) = length (k :: tl)) by (now rewrite Ek).
-  pose proof (M_all force (text_of (k :: tl)) e 1 []) as HM.
-  rewrite app_nil_r in HM. rewrite Hn in HM. clear Hn.
-  rewrite Ek in *. clear Ek.
-  assert (Hk : wf_tok k = true).
-  { cbn [forallb] in Hts. apply andb_true_iff in Hts. tauto. }
-  destruct (lex_next_first k tl Hk) as [tok [l' [El [Hm Hl]]]].
-  set (src := text_of (k :: tl)) in *.
+  intro trail. induction its as [|[ws k] r IH]; intros first H; [simpl; lia|].
+  cbn [gaps_ok] in H. repeat (apply andb_true_iff in H; destruct H as [H ?]).
+  cbn [lay length]. rewrite !app_length. specialize (IH false H0).
+  pose proof (spell_nonempty k H1). lia.
+Qed.
+
+Lemma gaps_wf : forall its first, gaps_ok first its = true -> forallb wf_tok (map snd its) = true.
+Proof.
+  induction its as [|[ws k] r IH]; intros first H; [reflexivity|].
+  cbn [gaps_ok] in H. repeat (apply andb_true_iff in H; destruct H as [H ?]).
+  cbn [map snd forallb]. rewrite H1. apply (IH false H0).
+Qed.
+
+(* every printing of a well-formed expression -- with any set of forced parentheses, laid
+   out with any horizontal white space between the tokens -- parses, with the fuel the
+   model grants, to a tree whose position-free form is the expression (compound
+   assignments desugared, as the parser does) *)
+Theorem parse_print_layout : forall force e items trail, wf_sexpr e = true ->
+  map snd items = print force 1 e -> gaps_ok true items = true -> forallb is_hws trail = true ->
+  exists e' st', parse_expression_src (lay items trail) = POk e' st' /\
+                 strip (lay items trail) e' = Some (desugar e).
+Proof.
+  intros force e items trail Hwf Hmap Hg Htrail.
+  pose proof (lay_len trail items true Hg) as Hlen.
+  pose proof (gaps_wf items true Hg) as Hts.
+  pose proof (M_all force (lay items trail) e 1 []) as HM.
+  rewrite app_nil_r in HM. rewrite <- Hmap in HM. rewrite map_length in HM.
+  destruct items as [|[ws k] r].
+  { destruct (print_hd force e Hwf 1) as [k [tl [Ek _]]]. rewrite Ek in Hmap. discriminate Hmap. }
+  destruct (lex_next_first_lay ws k r trail Hg Htrail) as [tok [l' [El [Hm Hl]]]].
+  set (src := lay ((ws, k) :: r) trail) in *.
   set (st1 := mkP src l' tok zero_token false false false).
+  assert (Hk : wf_tok k = true).
+  { cbn [map snd forallb] in Hts. apply andb_true_iff in Hts. tauto. }
   assert (Eadv : advance (new_parser src) = POk tok st1).
   { unfold advance, new_parser. cbn [plex psrc pcur pinfn pinloop].
     rewrite (nnn_step _ _ _ _ El); [reflexivity|].
     rewrite (proj1 Hm). now apply wf_tok_not_newline. }
-  assert (HA1 : At src st1 (k :: tl)).
+  assert (HA1 : At src st1 (map snd ((ws, k) :: r))).
   { split; [reflexivity|]. split; [exact Hm|]. split; [exact Hl|]. exact Hts. }
   destruct (HM st1 Hwf (le_n 1)) as [e' [st2 [Hs [HA2 Hpar]]]];
     [cbn; lia|exact HA1|].
@@ -1198,6 +1214,17 @@ Proof.
   rewrite Hpar.
   - rewrite E3. reflexivity.
   - unfold parse_fuel. lia.
+Qed.
+
+(* the canonical one-space layout *)
+Theorem parse_print : forall force e, wf_sexpr e = true ->
+  exists e' st', parse_expression_src (text_of (print force 1 e)) = POk e' st' /\
+                 strip (text_of (print force 1 e)) e' = Some (desugar e).
+Proof.
+  intros force e Hwf. rewrite text_of_lay.
+  apply (parse_print_layout force e); auto.
+  - apply snd_space_items.
+  - apply gaps_space_items. apply print_wf. exact Hwf.
 Qed.
 
 Lemma desugar_id : forall e, no_compound e = true -> desugar e = e.
@@ -1251,3 +1278,18 @@ Theorem compound_desugar : forall b l r, wf_sexpr (SCompound b l r) = true ->
     strip (text_of (render (SCompound b l r))) e' =
       Some (SAssign (desugar l) (SBin b (desugar l) (desugar r))).
 Proof. intros b l r H. exact (parse_render (SCompound b l r) H). Qed.
+
+(* C13 at the level of expressions: re-laying out the tokens of an expression with any
+   horizontal white space gives the same tree as the canonical one-space layout *)
+Theorem expr_layout_insensitive : forall force e items trail, wf_sexpr e = true ->
+  map snd items = print force 1 e -> gaps_ok true items = true -> forallb is_hws trail = true ->
+  exists e1 st1 e2 st2,
+    parse_expression_src (lay items trail) = POk e1 st1 /\
+    parse_expression_src (text_of (print force 1 e)) = POk e2 st2 /\
+    strip (lay items trail) e1 = strip (text_of (print force 1 e)) e2.
+Proof.
+  intros force e items trail Hwf Hmap Hg Ht.
+  destruct (parse_print_layout force e items trail Hwf Hmap Hg Ht) as [e1 [st1 [P1 S1]]].
+  destruct (parse_print force e Hwf) as [e2 [st2 [P2 S2]]].
+  exists e1, st1, e2, st2. repeat split; auto. now rewrite S1, S2.
+Qed.
